@@ -269,6 +269,16 @@ def prove(prop_id, extra_targets=()):
     """Build Props/<id>.vo with its cone, audit it, and evaluate the pinned statements.
     Returns dict(ok, obligations, discharged, failures, theorems, assumptions, output)."""
     res = dict(ok=True, obligations=0, discharged=0, failures=[], theorems=[], assumptions={}, output="")
+    # the translator: regenerate Gen/Tables.v from /repo's working tree (fails closed)
+    import tables_from_source
+    try:
+        write_if_changed(os.path.join(THEORIES, "Gen", "Tables.v"), tables_from_source.generate())
+    except Exception as e:  # TranslatorError or anything unexpected while scanning the sources
+        res["ok"] = False
+        res["failures"].append("translator: %s" % e)
+        res["theorems"] = re.findall(r"Check\s*\(\s*([A-Za-z_0-9']+)\s*:", open(os.path.join(COQ, "pins", "%s.v" % prop_id)).read())
+        res["obligations"] = len(res["theorems"])
+        return res
     props_v = "theories/Props/%s.v" % prop_id
     pins_v = os.path.join(COQ, "pins", "%s.v" % prop_id)
     target = props_v[:-2] + ".vo"
